@@ -27,6 +27,14 @@ pub struct Cfg {
     /// another vault in the prompt); only "credProps equals what was stored" and the assertion rules are judged then
     #[serde(default)]
     pub cap_after_prompt: Option<Disc>,
+    /// how the store with that capability is handed to the authenticator: 0 as it is, 1 tokio Mutex, 2 tokio RwLock,
+    /// 3 Arc<Mutex>, 4 Arc<RwLock> (the wrappers must pass the capability on)
+    #[serde(default)]
+    pub wrap: u8,
+    /// user-verification capability of the authenticator: 0 configured, 1 present but not configured, 2 absent
+    /// (then every ceremony runs with userVerification discouraged)
+    #[serde(default)]
+    pub uv_cap: u8,
 }
 
 fn mapped_rk(resident_key: u8, require: bool, supports_rk: bool) -> bool {
@@ -39,17 +47,32 @@ fn mapped_rk(resident_key: u8, require: bool, supports_rk: bool) -> bool {
 }
 
 pub fn check(ctx: &mut Ctx, c: &Cfg) -> Result<(), String> {
+    use std::sync::Arc;
+    use tokio::sync::{Mutex, RwLock};
     ctx.eval();
     ctx.nontrivial(c);
     let store = RefStore::new(c.cap);
-    let uv = ScriptedUv::new(UvScript::verified());
+    match c.wrap % 5 {
+        0 => check_with(ctx, c, store.clone(), store),
+        1 => check_with(ctx, c, Mutex::new(store.clone()), store),
+        2 => check_with(ctx, c, RwLock::new(store.clone()), store),
+        3 => check_with(ctx, c, Arc::new(Mutex::new(store.clone())), store),
+        _ => check_with(ctx, c, Arc::new(RwLock::new(store.clone())), store),
+    }
+}
+
+fn check_with<S: passkey_authenticator::CredentialStore<PasskeyItem = passkey_types::Passkey> + Send + Sync>(ctx: &mut Ctx, c: &Cfg, wrapped: S, store: RefStore) -> Result<(), String> {
+    // user-verification capability: when it is not configured every ceremony runs with userVerification discouraged
+    let uv_ok = c.uv_cap % 3 == 0;
+    let base_script = || UvScript { verification_enabled: [Some(true), Some(false), None][c.uv_cap as usize % 3], outcome: Ok((true, uv_ok)), ..UvScript::verified() };
+    let uv = ScriptedUv::new(base_script());
     if let Some(new_cap) = c.cap_after_prompt {
         let s2 = store.clone();
         uv.on_next_check(move || s2.set_disc(new_cap));
     }
     let dynamic = c.cap_after_prompt.is_some();
     let uv_handle = uv.clone();
-    let auth = cer::build_authenticator(store.clone(), uv, &AuthCfg { counter: true, hmac: if c.prf { crate::cer::HmacCfg::WithoutUvMc } else { crate::cer::HmacCfg::None }, ..Default::default() });
+    let auth = cer::build_authenticator(wrapped, uv, &AuthCfg { counter: true, hmac: if c.prf { crate::cer::HmacCfg::WithoutUvMc } else { crate::cer::HmacCfg::None }, ..Default::default() });
     let supports_rk = c.cap != Disc::OnlyNonDiscoverable;
     let site = &SITES[0];
     if let Some((rkreq, require, cred_props, with_sel)) = c.client {
@@ -64,7 +87,7 @@ pub fn check(ctx: &mut Ctx, c: &Cfg) -> Result<(), String> {
                     _ => None,
                 },
                 require,
-                cer::uv_req(1),
+                cer::uv_req(if uv_ok { 1 } else { 2 }),
             )
         });
         let prf_in = c.prf.then(|| passkey_types::webauthn::AuthenticationExtensionsPrfInputs { eval: Some(passkey_types::webauthn::AuthenticationExtensionsPrfValues { first: b"c11".to_vec().into(), second: None }), eval_by_credential: None });
@@ -129,8 +152,8 @@ pub fn check(ctx: &mut Ctx, c: &Cfg) -> Result<(), String> {
                 // now assertions (several: the stored record is rewritten by the counter update in between)
                 for round in 1..=3u8 {
                     // preferred, discouraged (the validation step then only reports presence), required
-                    uv_handle.set(if round == 2 { UvScript::present_only() } else { UvScript::verified() });
-                    let req = cer::request_options(site.rp, b"c11 challenge 2", Some(vec![cer::descriptor(&cred.raw_id)]), cer::uv_req(round), None);
+                    uv_handle.set(if round == 2 || !uv_ok { UvScript { outcome: Ok((true, false)), ..base_script() } } else { base_script() });
+                    let req = cer::request_options(site.rp, b"c11 challenge 2", Some(vec![cer::descriptor(&cred.raw_id)]), cer::uv_req(if uv_ok { round } else { 2 }), None);
                     let a = block_on(client.authenticate(site.origin(), req, DefaultClientData)).map_err(|e| format!("assertion #{round} with the new credential failed: {e:?}"))?;
                     let stored_now = store.creds().first().map(|c| c.user_handle.is_some()).unwrap_or(false);
                     if stored_now != discoverable {
@@ -154,7 +177,7 @@ pub fn check(ctx: &mut Ctx, c: &Cfg) -> Result<(), String> {
             pub_key_cred_params: cer::params(&[-7]),
             exclude_list: None,
             extensions: None,
-            options: make_credential::Options { rk, up: true, uv: true },
+            options: make_credential::Options { rk, up: true, uv: uv_ok },
             pin_auth: None,
             pin_protocol: None,
         };
@@ -182,13 +205,13 @@ pub fn check(ctx: &mut Ctx, c: &Cfg) -> Result<(), String> {
                 }
                 let id = r.auth_data.attested_credential_data.as_ref().ok_or("no attested data")?.credential_id().to_vec();
                 for round in 1..=3u8 {
-                    uv_handle.set(if round == 2 { UvScript::present_only() } else { UvScript::verified() });
+                    uv_handle.set(if round == 2 || !uv_ok { UvScript { outcome: Ok((true, false)), ..base_script() } } else { base_script() });
                     let a = block_on(auth.get_assertion(get_assertion::Request {
                         rp_id: "example.com".into(),
                         client_data_hash: vec![9u8; 32].into(),
                         allow_list: Some(vec![cer::descriptor(&id)]),
                         extensions: None,
-                        options: get_assertion::Options { rk: false, up: true, uv: round != 2 },
+                        options: get_assertion::Options { rk: false, up: true, uv: round != 2 && uv_ok },
                         pin_auth: None,
                         pin_protocol: None,
                     }))
@@ -210,24 +233,43 @@ pub fn all_configs() -> Vec<Cfg> {
             for require in [false, true] {
                 for cp in 0..3u8 {
                     for prf in [false, true] {
-                        v.push(Cfg { cap, client: Some((rkreq, require, cp, true)), ctap_rk: None, prf, cap_after_prompt: None });
+                        v.push(Cfg { cap, client: Some((rkreq, require, cp, true)), ctap_rk: None, prf, cap_after_prompt: None, wrap: 0, uv_cap: 0 });
                     }
                 }
             }
         }
         // no authenticatorSelection at all
         for cp in 0..3u8 {
-            v.push(Cfg { cap, client: Some((0, false, cp, false)), ctap_rk: None, prf: false, cap_after_prompt: None });
-            v.push(Cfg { cap, client: Some((0, false, cp, false)), ctap_rk: None, prf: true, cap_after_prompt: None });
+            v.push(Cfg { cap, client: Some((0, false, cp, false)), ctap_rk: None, prf: false, cap_after_prompt: None, wrap: 0, uv_cap: 0 });
+            v.push(Cfg { cap, client: Some((0, false, cp, false)), ctap_rk: None, prf: true, cap_after_prompt: None, wrap: 0, uv_cap: 0 });
         }
         for rk in [false, true] {
-            v.push(Cfg { cap, client: None, ctap_rk: Some(rk), prf: false, cap_after_prompt: None });
+            v.push(Cfg { cap, client: None, ctap_rk: Some(rk), prf: false, cap_after_prompt: None, wrap: 0, uv_cap: 0 });
+        }
+        // the store handed over inside each lock wrapper, and authenticators whose user verification is not configured / absent
+        for rkreq in 0..4u8 {
+            for require in [false, true] {
+                for wrap in 1..5u8 {
+                    v.push(Cfg { cap, client: Some((rkreq, require, 2, true)), ctap_rk: None, prf: false, cap_after_prompt: None, wrap, uv_cap: 0 });
+                }
+                for uv_cap in 1..3u8 {
+                    v.push(Cfg { cap, client: Some((rkreq, require, 2, true)), ctap_rk: None, prf: false, cap_after_prompt: None, wrap: 0, uv_cap });
+                }
+            }
+        }
+        for rk in [false, true] {
+            for wrap in 1..5u8 {
+                v.push(Cfg { cap, client: None, ctap_rk: Some(rk), prf: false, cap_after_prompt: None, wrap, uv_cap: 0 });
+            }
+            for uv_cap in 1..3u8 {
+                v.push(Cfg { cap, client: None, ctap_rk: Some(rk), prf: false, cap_after_prompt: None, wrap: 0, uv_cap });
+            }
         }
         // the capability changes while the user is being asked (credProps requested)
         for new_cap in Disc::ALL.into_iter().filter(|n| *n != cap) {
             for rkreq in 0..4u8 {
                 for require in [false, true] {
-                    v.push(Cfg { cap, client: Some((rkreq, require, 2, true)), ctap_rk: None, prf: false, cap_after_prompt: Some(new_cap) });
+                    v.push(Cfg { cap, client: Some((rkreq, require, 2, true)), ctap_rk: None, prf: false, cap_after_prompt: Some(new_cap), wrap: 0, uv_cap: 0 });
                 }
             }
         }
@@ -236,7 +278,7 @@ pub fn all_configs() -> Vec<Cfg> {
 }
 
 pub fn run(ctx: &mut Ctx) {
-    ctx.rule = "complete product: store capability (3) x residentKey (absent, discouraged, preferred, required) x requireResidentKey (2) x credProps request (absent, false, true) x PRF requested on a PRF-capable authenticator (2) through Client::register followed by three authentications under userVerification preferred / discouraged / required (counters on, so the record is rewritten in between), plus authenticatorSelection absent (3x3), plus the capability changing to each other value while the user is asked (credProps requested; only credProps-versus-stored and the assertion rules are judged), plus capability x CTAP rk (2) through make_credential / get_assertion. Every configuration is distinct and non-trivial.".into();
+    ctx.rule = "complete product: store capability (3) x residentKey (absent, discouraged, preferred, required) x requireResidentKey (2) x credProps request (absent, false, true) x PRF requested on a PRF-capable authenticator (2) through Client::register followed by three authentications under userVerification preferred / discouraged / required (counters on, so the record is rewritten in between), plus authenticatorSelection absent (3x3), plus the capability changing to each other value while the user is asked (credProps requested; only credProps-versus-stored and the assertion rules are judged), plus the store handed over inside each of the four lock wrappers, plus authenticators whose user verification is present-but-unconfigured or absent (ceremonies then run with userVerification discouraged), plus capability x CTAP rk (2) through make_credential / get_assertion. Every configuration is distinct and non-trivial.".into();
     ctx.exhaustive = Some(true);
     ctx.assumptions = vec!["the capability is set through the reference store's get_info; user validation always consents".into()];
     let all = all_configs();
